@@ -140,3 +140,18 @@ Fixpoint valid (fuel : nat) (signed : bool) (t : cty) (bs : list N) {struct fuel
    as far as leaves are concerned (Bits is AnyBitPattern) *)
 Lemma leaf_bits_valid bs : leaf_valid LAny bs = true.
 Proof. reflexivity. Qed.
+
+(* the Bits of a Bits type is itself: the macro's construction is a projection onto the
+   any-bit-pattern shapes (so `<T::Bits as CheckedBitPattern>::Bits` adds nothing) *)
+Lemma map_id_Forall {A} (f : A -> A) l : Forall (fun x => f x = x) l -> map f l = l.
+Proof. induction 1 as [|x r Hx _ IH]; cbn [map]; [reflexivity | rewrite Hx, IH; reflexivity]. Qed.
+
+Theorem bits_of_idempotent t : bits_of (bits_of t) = bits_of t.
+Proof.
+  induction t as [s a k | p al fs IH | rk ts ea sg vs IH] using cty_ind'; cbn [bits_of].
+  - reflexivity.
+  - rewrite map_map. f_equal. apply map_ext_Forall. exact IH.
+  - rewrite map_map. f_equal. apply map_ext_Forall.
+    induction IH as [|v r Hv _ IHr]; constructor; [|exact IHr].
+    cbn [fst snd]. f_equal. rewrite map_map. apply map_ext_Forall. exact Hv.
+Qed.
